@@ -16,8 +16,8 @@ namespace QipVerif.Sched
 open QipVerif.Gen.SchedRule
 
 /-- the instruction's flag `sc` is what the tree's rule asks of an instruction before it declares it commuting with a
-gate of its own name (`Gen.SchedRule.flagged`): the name is in `_SELF_COMMUTING_GATES` and, on a tree with the guard on
-gates given by many targets (`lenBound`), it has at most that many targets -/
+gate of its own name (`Gen.SchedRule.flagged`, the conjunction of the negated guards of the same-name part): the name is
+in `_SELF_COMMUTING_GATES` and, on a repaired tree, it is not a gate given by several non-interchangeable targets -/
 def TreeIns (a : Ins) : Prop := a.sc = flagged a
 
 instance (a : Ins) : Decidable (TreeIns a) := inferInstanceAs (Decidable (_ = _))
@@ -47,11 +47,22 @@ theorem commRules_eq_gen (a b : Ins) (ha : TreeIns a) (hb : TreeIns b) :
   by_cases hn : a.name = b.name
   · have hne : (a.name != b.name) = false := by simp [hn]
     rw [if_pos hn, if_neg (by rw [hne]; exact Bool.false_ne_true), ha, hb]
-    unfold flagged lenBound
+    unfold flagged
     rw [← hn]
-    cases inSet a.name <;> cases (!a.controls.isEmpty && a.controls == b.controls) <;>
-      cases (a.targets == b.targets) <;> by_cases h4 : a.targets.length ≤ 2 <;>
-      by_cases h5 : b.targets.length ≤ 2 <;> simp_all
+    -- every guard is `if g a || g b then false`, `flagged` is the conjunction of the negated guards: Boolean case analysis
+    -- Boolean identity in the atoms of the rule: every guard is `if g a || g b then false`, `flagged` is the conjunction of
+    -- the negated guards.  The atoms that exist depend on the variant of the tree (no guard / `len > 2` / `len > 1` and not
+    -- exchange-symmetric), hence the `try`s.
+    generalize inSet a.name = I
+    generalize (!a.controls.isEmpty && a.controls == b.controls) = C
+    generalize (a.targets == b.targets) = T
+    try generalize decide (a.targets.length > 1) = La1
+    try generalize decide (b.targets.length > 1) = Lb1
+    try generalize decide (a.targets.length > 2) = La2
+    try generalize decide (b.targets.length > 2) = Lb2
+    try generalize namedSet_EXCHANGE_SYMMETRIC_GATES.contains a.name = S
+    cases I <;> cases C <;> cases T <;> (try cases La1) <;> (try cases Lb1) <;> (try cases La2) <;> (try cases Lb2) <;>
+      (try cases S) <;> simp
   · have hne : (a.name != b.name) = true := by simpa using hn
     rw [if_neg hn, if_pos hne]
     by_cases hlt : b.name < a.name
